@@ -90,6 +90,52 @@ theorem tileStartOld_eq_of_fits (N k j : Nat) (hj : j < k)
     unfold tileLen at *
     rw [hj']; omega
 
+/-! ## split_shape with `equal_shape=False`: a partition of the axis -/
+
+theorem tileU_first (N k : Nat) : (tileU N k 0).1 = 0 := by
+  unfold tileU; split <;> simp
+
+theorem tileU_last (N k : Nat) : (tileU N k (k - 1)).2 = N := by
+  unfold tileU; rw [if_neg (by omega)]
+
+/-- consecutive tiles are adjacent (no gap, no overlap) -/
+theorem tileU_adjacent (N k j : Nat) (hj : j + 1 < k) : (tileU N k j).2 = (tileU N k (j + 1)).1 := by
+  unfold tileU
+  rw [if_pos (by omega)]
+  split <;> rfl
+
+/-- for `k ≤ N` every tile is non-empty and in bounds -/
+theorem tileU_nonempty (N k j : Nat) (hk : 0 < k) (hkN : k ≤ N) (hj : j < k) :
+    (tileU N k j).1 < (tileU N k j).2 ∧ (tileU N k j).2 ≤ N := by
+  have hL : 0 < N / k := Nat.div_pos hkN hk
+  have hkL : k * (N / k) ≤ N := Nat.mul_div_le N k
+  have e1 : (j + 1) * (N / k) = j * (N / k) + N / k := by ring
+  have hjk : (j + 1) * (N / k) ≤ k * (N / k) := Nat.mul_le_mul_right _ (by omega)
+  unfold tileU
+  split
+  · simp only; omega
+  · simp only; omega
+
+/-- the tiles cover the axis -/
+theorem tilesU_cover (N k x : Nat) (hk : 0 < k) (hkN : k ≤ N) (hx : x < N) :
+    ∃ j, j < k ∧ (tileU N k j).1 ≤ x ∧ x < (tileU N k j).2 := by
+  have hL : 0 < N / k := Nat.div_pos hkN hk
+  set L := N / k with hLdef
+  by_cases hc : x / L < k - 1
+  · refine ⟨x / L, by omega, ?_, ?_⟩
+    · unfold tileU; rw [if_pos hc]; exact Nat.div_mul_le_self x L
+    · unfold tileU; rw [if_pos hc]
+      have h2 : x < L * (x / L + 1) := Nat.lt_mul_div_succ x hL
+      simp only [← hLdef]
+      rw [Nat.mul_comm]; exact h2
+  · refine ⟨k - 1, by omega, ?_, ?_⟩
+    · unfold tileU; rw [if_neg (by omega)]
+      simp only [← hLdef]
+      have h1 : x / L * L ≤ x := Nat.div_mul_le_self x L
+      have h3 : (k - 1) * L ≤ x / L * L := Nat.mul_le_mul_right _ (by omega)
+      omega
+    · unfold tileU; rw [if_neg (by omega)]; exact hx
+
 /-! ## split_shape, n-D -/
 
 theorem mem_productL {α : Type} : ∀ (ls : List (List α)) (l : List α),
@@ -335,6 +381,11 @@ theorem tile_offset_places_scores (nt m start j left np conv ext vs : Nat) (hm :
   subst hnp hconv hext hvs
   omega
 
+/-- no margin along a batch axis; elsewhere the margin of the template extent -/
+theorem targetPaddingB_spec (m : Nat) (b : Bool) :
+    targetPaddingB m b = if b then 0 else m - m % 2 := by
+  unfold targetPaddingB targetPadding; rfl
+
 /-! ## memory model and schedule -/
 
 theorem coreAssignments_prod (maxCores : Nat) (oo : Bool) (io : Nat × Nat)
@@ -446,6 +497,7 @@ example : splitAxis 10 7 = [(0,2),(2,4),(4,6),(6,8),(8,10),(8,10),(8,10)] := by 
 example : splitAxisOld 10 7 = [(0,2),(2,4),(4,6),(6,8),(8,10),(10,12),(8,10)] := by decide
 example : (splitShape [5,4] [2,2]).length = 4 := by decide
 example : ((tileAxis 10 0 4 4).src 0, (tileAxis 10 0 4 4).src 1, (tileAxis 10 0 4 4).src 2, (tileAxis 10 0 4 4).extent) = (2, 1, 0, 8) := by decide
+example : splitAxisU 10 7 = [(0,1),(1,2),(2,3),(3,4),(4,5),(5,6),(6,10)] := by decide
 example : coreAssignments 12 false = [(1,12),(12,1),(2,6),(6,2),(3,4),(4,3)] := by decide +kernel
 
 end Pm.C14
